@@ -199,6 +199,19 @@ func c07UnderscoreFieldsPool() []c07Def {
 	}
 }
 
+// c07TypeVarNamePool: a user type named T0 - the name fc gives the first hoisted type parameter - as the type ARGUMENT
+// of a generic record, next to an unrelated generic function over that record (whose own instantiation is Boxn<T0> with
+// T0 the type parameter).  Recorded finding C07:definition-differs:unboxNn: the two instantiations share one table key.
+func c07TypeVarNamePool() []c07Def {
+	return []c07Def{
+		/*0*/ {name: "Boxn", src: "type Boxn<T> = {V: T}\n", owns: exact("Boxn"), declOnly: true},
+		/*1*/ {name: "T0", src: "type T0 = {Fz: int}\n", owns: exact("T0"), declOnly: true},
+		/*2*/ {name: "unboxNn", src: "let unboxNn (b: Boxn<T0>) =\n  b.V.Fz\n", deps: []int{0, 1}, owns: exact("unboxNn")},
+		/*3*/ {name: "mkbn", src: "let mkbn v =\n  {V=v}\n", deps: []int{0}, owns: exact("mkbn")},
+		/*4*/ {name: "useT0n", src: "let useT0n (t: T0) =\n  t.Fz + 1\n", deps: []int{1}, owns: exact("useT0n")},
+	}
+}
+
 func c07Pool(thorough bool) []c07Def {
 	pool := []c07Def{
 		/*0*/ {name: "R", src: "type R = {A: int; B: string}\n", owns: exact("R"), declOnly: true},
@@ -493,6 +506,9 @@ func checkC07(c *core.Ctx) {
 	uf := c07UnderscoreFieldsPool()
 	c.Set("underscore_fields_pool_size", len(uf))
 	c07ExplorePool(c, sc, fc, uf, [][2]int{{5, maxFiles}})
+	tvn := c07TypeVarNamePool()
+	c.Set("type_variable_name_pool_size", len(tvn))
+	c07ExplorePool(c, sc, fc, tvn, [][2]int{{5, maxFiles}})
 	inst := c07InstantiationPool()
 	c.Set("instantiation_pool_size", len(inst))
 	c07ExplorePool(c, sc, fc, inst, [][2]int{{5, maxFiles}})
